@@ -53,7 +53,9 @@ THEOREMS = [P + n for n in (
     'guard_leaves', 'dispatch_leaves', 'loop_leaves',
     # round 4
     'input_write_leaves', 'call_leaves_data_unchanged', 'session_calls_independent', 'session_call_at',
-    'inplace_write_changes_data')]
+    'inplace_write_changes_data',
+    # round 7
+    'cv_lower_pools_train_at_test', 'cv_ceil_data_is_train_at_conds')]
 RULE = ('one PRNG; boot: 2-6 RDMs x 4-7 conditions, values small integers (ties) / quarters / '
         'distinct dyadics / signed integers with zeros, 0-3 entries missing from all RDMs (or, malformed stream, from one RDM), '
         'grouping descriptor singleton / 2-3 groups / one group, methods cosine, corr, rho-a, '
@@ -98,7 +100,9 @@ BRANCHES = ['kind:boot', 'kind:cv', 'kind:cvgen',
             # round 4: one object analysed by several successive calls
             'kind:session', 'sess:len2', 'sess:len3+', 'sess:float', 'sess:int', 'sess:boot', 'sess:cv',
             'sess:pool', 'sess:pooling', 'sess:evalfixed', 'sess:sensitive-order', 'sess:reversed',
-            'sess:cv-loo-rdm', 'sess:nan-common']
+            'sess:cv-loo-rdm', 'sess:nan-common',
+            # round 7: content of the real generators' ceil sets where the folds test a proper subset of conditions
+            'cvgen:ceil-content:k_pattern>1', 'cvgen:ceil-content:random', 'cvgen:ceil-content:loo_pattern']
 ASSUMPTIONS = [
     'no pooled prediction is numerically (but not exactly) zero or constant: the similarity of such a '
     'prediction is rounding noise on both sides (such stacks are rejected at generation, see RULE); '
@@ -246,6 +250,30 @@ def _fold_positions(case):
     return out
 
 
+def _set_contents(case):
+    """[{ceil: {rows, conds, pidx, vecs}, test: {...}}] — what the objects of a real generator's ceil_set /
+    test_set hold (freshly generated from a freshly built object under the case's seed)"""
+    rdms = _build(case)
+    ce, te = _real_sets(case, rdms)
+    out = []
+    for c, t in zip(ce, te):
+        ent = {}
+        for key, part in (('ceil', c), ('test', t)):
+            r, cd = _positions(part[0])
+            ent[key] = {'rows': r, 'conds': cd, 'pidx': [int(v) for v in np.asarray(part[1]).ravel()],
+                        'vecs': [_vec(v) for v in np.asarray(part[0].get_vectors(), dtype=float)]}
+        out.append(ent)
+    return out
+
+
+def _spec_conds(case, pidx):
+    """the test conditions of a fold by definition: the conditions whose pattern-descriptor value is one of
+    the advertised test pattern values (positions in the full RDM, ascending)"""
+    pd = list(case.get('pdesc') or range(case['n']))
+    want = set(int(v) for v in pidx)
+    return [i for i in range(case['n']) if pd[i] in want]
+
+
 # ------------------------------------------------------------------ implementation side
 
 def _exc(exc):
@@ -332,9 +360,17 @@ def run_impl(case):
                 lo, up = cv_noise_ceiling(rdms, ce, te, m, _pname(case))
             else:
                 lo, up = cv_noise_ceiling(rdms, ce, te, method=m, pattern_descriptor=_pname(case))
-            return {'lower': float(lo), 'upper': float(up), 'folds': len(te)}
+            res = {'lower': float(lo), 'upper': float(up), 'folds': len(te)}
         except Exception as exc:  # noqa: BLE001
-            return _exc(exc)
+            res = _exc(exc)
+        if case['kind'] == 'cvgen':
+            # round 7: the CONTENT of every ceil_set / test_set entry a real generator handed out (which RDMs,
+            # which conditions, which dissimilarities the object holds, the advertised pattern values)
+            try:
+                res['sets'] = _set_contents(case)
+            except Exception as exc:  # noqa: BLE001
+                res['sets'] = _exc(exc)
+        return res
 
 
 # ------------------------------------------------------------------ model side
@@ -365,6 +401,13 @@ def model_requests(case):
             folds = _fold_positions(case)
         except Exception:  # noqa: BLE001  (the generator itself failed: nothing to model)
             return []
+        # round 7: only the DRAW outcome is read back (which RDMs train / test, which pattern values are
+        # tested); the conditions of both parts are the specification's — the conditions whose pattern value
+        # is a test value — so `cvPredTrain` pools the training RDMs AT THE TEST CONDITIONS whatever the
+        # ceil objects hold; what they do hold is compared with the model's `partData` (answer key 'ceil')
+        folds = [dict(f, ceil_conds=_spec_conds(case, f['pidx']), test_conds=_spec_conds(case, f['pidx']),
+                      read_ceil_conds=f['ceil_conds'], read_test_conds=f['test_conds']) for f in folds]
+        return [dict(base, op='c07.cv', folds=folds, want_ceil=True)]
     return [dict(base, op='c07.cv', folds=folds)]
 
 
@@ -393,6 +436,8 @@ def model_result(case, answers):
         res['poolw'] = [None if v is None else unfbits(v) for v in a['poolw']]
     if 'folds' in a:
         res['folds'] = a['folds']
+    if a.get('ceil') is not None:
+        res['ceil'] = [[[None if v is None else unfbits(v) for v in r] for r in f] for f in a['ceil']]
     if a.get('fast') is not None:
         res['fast'] = (unfbits(a['fast']['lower']), unfbits(a['fast']['upper']))
     if a.get('wpool') is not None:
@@ -430,6 +475,10 @@ def compare(case, impl, model):
         return None
     if model.get('exc') == 'generator':
         return None if 'exc' in impl else 'model has no folds but the implementation answered'
+    if case['kind'] == 'cvgen':
+        d = _content_diff(case, impl, model)
+        if d:
+            return d
     if ('exc' in impl) != ('exc' in model):
         return f"exception: impl {impl.get('exc')} model {model.get('exc')}"
     if 'exc' in impl:
@@ -469,6 +518,29 @@ def compare(case, impl, model):
                            rtol=1e-9, atol=1e-9, path='pooling.pool_rdm')
         if d:
             return d
+    return None
+
+
+def _content_diff(case, impl, model):
+    """round 7: every ceil_set entry of a real generator must hold exactly the model's `cvPredTrain` input
+    (`partData` of the ceil part = the training RDMs restricted to the test conditions), every test_set entry
+    the test RDMs at the test conditions"""
+    sets = impl.get('sets')
+    if not isinstance(sets, list):
+        return f'the sets of the generator could not be read back: {sets}'
+    if model.get('ceil') is None:
+        return 'model gave no ceil data'
+    if len(sets) != len(model['ceil']):
+        return f"number of folds: impl {len(sets)} model {len(model['ceil'])}"
+    for i, (st, mc) in enumerate(zip(sets, model['ceil'])):
+        conds = _spec_conds(case, st['test']['pidx'])
+        for key in ('ceil', 'test'):
+            if st[key]['conds'] != conds:
+                return (f'fold {i}: {key}_set object holds conditions {st[key]["conds"]}, the test conditions '
+                        f'are {conds}')
+        d = first_diff(st['ceil']['vecs'], mc, rtol=0.0, atol=0.0, path=f'ceil_set[{i}][0].dissimilarities')
+        if d:
+            return d + ' (model: training RDMs restricted to the test conditions)'
     return None
 
 
@@ -600,6 +672,32 @@ def oracle(case):
         lo, up = impl['lower'], impl['upper']
         if case['kind'] != 'boot':
             folds = _fold_positions(case)
+            note = ''
+            if case['kind'] == 'cvgen':
+                # round 7: the lower bound is recomputed from the raw data by the definition — 'the training RDMs
+                # at the test conditions': the draw (which RDMs train / test, which pattern values are tested) is
+                # read from the generator's sets, the test conditions are the conditions whose pattern value is
+                # an advertised test value — never from what the ceil objects hold.  What they hold is judged
+                # against the raw data too and named in the verdict when a bound is off.
+                sets = impl.get('sets')
+                if not isinstance(sets, list) or len(sets) != len(folds):
+                    return _viol('the sets of the generator could not be read back', sets, f'{len(folds)} folds',
+                                 claim='cv-ceil-content')
+                for i, (f, st) in enumerate(zip(folds, sets)):
+                    conds = _spec_conds(case, st['test']['pidx'])
+                    for key, what in (('ceil', 'training'), ('test', 'test')):
+                        if note:
+                            break
+                        if st[key]['conds'] != conds:
+                            note = (f' — {key}_set[{i}] holds the conditions {st[key]["conds"]}, the test conditions '
+                                    f'are {conds} (pooling over other conditions normalises each RDM differently)')
+                        elif first_diff(st[key]['vecs'], [O.sub_rdm(n, rows[j], conds) for j in st[key]['rows']],
+                                        rtol=0.0, atol=0.0):
+                            note = (f' — {key}_set[{i}] does not hold the dissimilarities of the {what} RDMs at '
+                                    'the test conditions')
+                    f['test_conds'] = conds
+                    f['ceil_rows'] = list(st['ceil']['rows'])
+                    f['test_rows'] = list(st['test']['rows'])
             for f in folds:
                 if set(f['ceil_rows']) & set(f['test_rows']) and len(set(rdesc)) > 1 \
                         and case.get('gen') != 'loo_pattern' and not case.get('shared_rows'):
@@ -607,10 +705,12 @@ def oracle(case):
             elo, eup = O.cv_expected(m, rows, n, folds)
             if not close(lo, elo, rtol=tol, atol=tol):
                 return _viol('cv lower bound is not the mean similarity of the test RDMs to the pooled '
-                             'training RDMs at the test conditions', lo, elo, claim='cv-lower')
+                             'training RDMs at the test conditions' + note, lo, elo, claim='cv-lower',
+                             ceil_content=bool(note))
             if not close(up, eup, rtol=tol, atol=tol):
                 return _viol('cv upper bound is not the mean similarity of the test RDMs to the pool of '
-                             'all RDMs at the test conditions', up, eup, claim='cv-upper')
+                             'all RDMs at the test conditions' + note, up, eup, claim='cv-upper',
+                             ceil_content=bool(note))
             return None
         groups = O.groups_of(rdesc)
         # every RDM its own group — or, more generally (theorem upper_unbeatable_balanced_groups), groups of
@@ -747,6 +847,17 @@ def features(case, impl):
             br.append('gen:defaults')
         if prm.get('k_rdm') == 1 or prm.get('n_rdm') == 0 or prm.get('n_pattern') == 0:
             br.append('gen:shared')
+        # round 7: the content of the ceil sets was read back and the folds test a PROPER subset of the
+        # conditions (only then 'pool, then select' differs from 'select, then pool')
+        sets = impl.get('sets') if impl else None
+        if isinstance(sets, list) and sets and 'exc' not in impl and \
+                any(len(_spec_conds(case, st['test']['pidx'])) < case['n'] for st in sets):
+            if case['gen'] == 'k_fold':
+                br.append('cvgen:ceil-content:k_pattern>1')
+            elif case['gen'] == 'random':
+                br.append('cvgen:ceil-content:random')
+            elif case['gen'] == 'loo_pattern':
+                br.append('cvgen:ceil-content:loo_pattern')
     if case.get('pdesc'):
         br.append('pdesc:group')
     if case.get('cands'):
@@ -1056,6 +1167,15 @@ def gen_cvgen(rng, method=None, gen=None, scale=None, variant=None):
             for k in ('k_rdm', 'k_pattern', 'n_rdm', 'n_pattern'):
                 if k in prm:
                     prm[k] = None
+        elif variant == 'pattern':      # round 7: the folds test a proper subset of the conditions
+            if g == 'k_fold':
+                prm['k_pattern'] = 3 if (n >= 9 and rng.random() < 0.5) else 2
+                if prm.get('k_rdm') == 1:
+                    prm['k_rdm'] = rng.choice([None, 2])
+            elif g == 'random':
+                prm['n_pattern'] = rng.randint(1, 2) if pdesc else rng.randint(3, n - 3)
+                if prm.get('n_rdm') == 0:
+                    prm['n_rdm'] = rng.randint(1, ng - 1)
         elif variant == 'shared':       # one RDM fold / no RDM split: training and test RDMs coincide
             if g == 'k_fold':
                 prm['k_rdm'] = 1
@@ -1172,6 +1292,10 @@ def generate(rng, tier):
             yield gen_cvgen(rng, None, g, variant='defaults')
         for g in ('k_fold', 'random'):
             yield gen_cvgen(rng, None, g, variant='shared')
+        # round 7: pattern folds of the real generators (k_pattern > 1 / n_pattern > 0), every method
+        for m in METHODS:
+            for g in ('k_fold', 'random'):
+                yield gen_cvgen(rng, m, g, variant='pattern')
         # round 4: sessions (one object, several calls), each in both orders
         for c in gen_sessions(rng, tier):
             yield c
